@@ -3,14 +3,18 @@
 package verifharness
 
 import (
+	"fmt"
 	"math/rand"
 	"os"
 	"path/filepath"
 	"testing"
+	"testing/synctest"
+	"time"
 
 	"github.com/markusressel/fan2go/internal"
 	"github.com/markusressel/fan2go/internal/configuration"
 	"github.com/markusressel/fan2go/internal/controller"
+	"github.com/markusressel/fan2go/internal/curves"
 	"github.com/markusressel/fan2go/internal/persistence"
 	"github.com/markusressel/fan2go/internal/sensors"
 	"github.com/prometheus/client_golang/prometheus"
@@ -91,4 +95,104 @@ func TestDriveBackend(t *testing.T) {
 			}
 		}
 	}
+}
+
+// TestDriveC04Multi: C04 for a daemon with SEVERAL fans, each with its own state: the controllers are the ones that
+// initializeFanControllers builds for fan entries that leave the algorithm to the default (PID) or name one. Fan A's
+// curve value is constant, the other fans' curves jump around; lock step under the fake clock (ticks of 200 ms).
+// After K(alg) cycles fan A's request must have settled at the value of the direct algorithm and stay there.
+func TestDriveC04Multi(t *testing.T) {
+	out := os.Getenv("VERIF_OUT")
+	if out == "" {
+		t.Skip("VERIF_OUT not set")
+	}
+	seed := int64(envInt("VERIF_SEED", 1))
+	n := envInt("VERIF_N", 3)
+	rec, err := NewRecorder(out)
+	must(err)
+	defer rec.Close()
+	r := rand.New(rand.NewSource(seed))
+	for i := 0; i < n; i++ {
+		sseed := r.Int63()
+		idx := i
+		synctest.Test(t, func(t *testing.T) { runC04Multi(rec, rand.New(rand.NewSource(sseed)), idx) })
+	}
+}
+
+func runC04Multi(rec *Recorder, r *rand.Rand, idx int) {
+	dir := scratchDir("verif.c04m.")
+	defer os.RemoveAll(dir)
+	pfx := uniq("m")
+	nf := 2 + r.Intn(2)
+	alg := []string{"default", "pid", "rate", "default"}[idx%4]
+	var cfg configuration.Configuration
+	cfg.DbPath = filepath.Join(dir, "db")
+	cfg.TempRollingWindowSize = 1
+	cfg.RpmRollingWindowSize = 10
+	cfg.ControllerAdjustmentTickRate = 200 * time.Millisecond
+	limit := 1 + r.Intn(20)
+	temps := make([]string, nf)
+	pwms := make([]string, nf)
+	for k := 0; k < nf; k++ {
+		temps[k] = filepath.Join(dir, fmt.Sprintf("temp%d", k))
+		pwms[k] = filepath.Join(dir, fmt.Sprintf("pwm%d", k))
+		writeInt(temps[k], 40000+r.Intn(40000))
+		writeInt(pwms[k], r.Intn(256))
+		sid, cid, fid := fmt.Sprintf("%ss%d", pfx, k), fmt.Sprintf("%sc%d", pfx, k), fmt.Sprintf("%sf%d", pfx, k)
+		cfg.Sensors = append(cfg.Sensors, configuration.SensorConfig{ID: sid, File: &configuration.FileSensorConfig{Path: temps[k]}})
+		cfg.Curves = append(cfg.Curves, configuration.CurveConfig{ID: cid, Linear: &configuration.LinearCurveConfig{Sensor: sid, Min: 40, Max: 80}})
+		fc := configuration.FanConfig{ID: fid, Curve: cid, File: &configuration.FileFanConfig{Path: pwms[k]}}
+		switch alg {
+		case "pid":
+			fc.ControlAlgorithm = &configuration.ControlAlgorithmConfig{Pid: &configuration.PidControlAlgorithmConfig{P: 0.3, I: 0.02, D: 0.005}}
+		case "rate":
+			fc.ControlAlgorithm = &configuration.ControlAlgorithmConfig{Direct: &configuration.DirectControlAlgorithmConfig{MaxPwmChangePerCycle: &limit}}
+		}
+		cfg.Fans = append(cfg.Fans, fc)
+	}
+	configuration.CurrentConfig = cfg
+	prometheus.DefaultRegisterer = prometheus.NewRegistry()
+	fanMap, err := internal.InitializeObjects()
+	must(err)
+	ctls, err := internal.VerifInitializeFanControllers(persistence.NewPersistence(cfg.DbPath), fanMap)
+	must(err)
+	byId := map[string]*controller.DefaultFanController{}
+	for f, c := range ctls {
+		dc := c.(*controller.DefaultFanController)
+		id := map[int]int{}
+		for v := 0; v <= 255; v++ {
+			id[v] = v
+		}
+		dc.VerifSetPwmMap(id)
+		byId[f.GetId()] = dc
+	}
+	fanA := byId[pfx+"f0"]
+	sens := func(k int) sensors.Sensor { s, _ := sensors.GetSensor(fmt.Sprintf("%ss%d", pfx, k)); return s }
+	curveA, _ := curves.GetSpeedCurve(pfx + "c0")
+	k := 1260 // K(pid) for 200 ms ticks + margin (ControllerProps!KPidOf)
+	if alg == "rate" {
+		k = 255/limit + 6
+	}
+	var reqs []int
+	cvA := -1
+	for cyc := 0; cyc < k+40; cyc++ {
+		time.Sleep(200 * time.Millisecond)
+		for j := 1; j < nf; j++ {
+			if r.Intn(7) == 0 {
+				writeInt(temps[j], 30000+r.Intn(60000))
+			}
+		}
+		for j := 0; j < nf; j++ {
+			_ = internal.VerifUpdateSensor(sens(j))
+		}
+		order := r.Perm(nf)
+		for _, j := range order {
+			_ = byId[fmt.Sprintf("%sf%d", pfx, j)].UpdateFanSpeed()
+		}
+		if cyc >= k {
+			reqs = append(reqs, fanA.VerifState().LastSetPwm)
+		}
+		cvA = curveA.CurrentValue()
+	}
+	rec.Emit(Ev{"ev": "MultiSettle", "alg": alg, "fans": nf, "c": cvA, "gmin": 0, "mx": 255, "k": k, "reqs": reqs})
 }
